@@ -64,6 +64,32 @@ func genC13(seed uint64, r *rng.Rand) *Plan {
 	case 7:
 		// a server that stops reading: writes block once the window is full
 		p.Faults = append(p.Faults, &Fault{On: "exec", N: at, Act: "stall", Server: g.R.Intn(p.Layout.Servers), Count: []int{0, 16, 300, 5000}[g.R.Intn(4)]})
+		if g.R.Chance(0.6) {
+			// busy send queue: the writer goroutine is stuck in Write with one
+			// multi-request while further batchable calls queue up behind it
+			p.Layout.Servers, p.Layout.Meta, p.Layout.Master = 1, 0, 0
+			for i := range p.Layout.Tables {
+				p.Layout.Tables[i].First = 0
+			}
+			p.Faults[len(p.Faults)-1].Server = 0
+			p.Faults[len(p.Faults)-1].Count = []int{0, 16, 60}[g.R.Intn(3)]
+			p.Client.QueueSize = []int{2, 3, 10}[g.R.Intn(3)]
+			p.Client.FlushMS = []int{1, 20}[g.R.Intn(2)]
+			p.Tasks = nil
+			nt = g.R.Range(3, 5)
+			for t := 0; t < nt; t++ {
+				var ops []Op
+				for i, n := 0, g.R.Range(2, 4); i < n; i++ {
+					o := g.SingleOp(ts.Name, g.KeyNear(ts.Splits, 3), []string{"get", "put", "inc"})
+					o.SkipBatch = false
+					ops = append(ops, o)
+				}
+				p.Tasks = append(p.Tasks, Task{Ops: ops})
+			}
+			for t := 0; t < nt; t++ {
+				p.Faults = append(p.Faults, &Fault{Act: "cancel", Task: t, Op: -1, On: "ms", N: g.R.Range(1, 20000)})
+			}
+		}
 	case 8:
 		// connections take an hour to establish
 		p.Faults = append(p.Faults, &Fault{On: "exec", N: at, Act: "dialdelay", Dur: 3600000})
